@@ -26,7 +26,7 @@ META = dict(
             "that cross-check is a test, not part of the solver claim",
     stubs=["ThreadPoolExecutor = deferred executor with nondeterministic job order", "alignment methods / sampler / np.std = spies as in C05"],
     assumptions=["jobs atomic w.r.t. shared state"],
-    cfg_budget_s=dict(quick=240, thorough=1700),
+    cfg_budget_s=dict(quick=240, thorough=900),
     replay_alarm_s=600,
 )
 
@@ -230,8 +230,6 @@ def replay(case):
     from pyannote.core import Segment
     from unittest import mock
     import numpy as np
-    if case.get("kind") == "gamma":
-        return c05.replay(case)
     if case.get("kind") == "ctor":
         calls = []
         orig = {k: getattr(np.random, k) for k in ("uniform", "normal", "random", "randint", "choice")}
@@ -267,42 +265,47 @@ def replay(case):
     for i, a in enumerate(("a", "b")):
         for j in range(3):
             c.add(a, Segment(10 * j + i, 10 * j + 4 + i), "xy"[j % 2])
-    jobs = ["_compute_best_alignment_job", "_compute_soft_alignment_job", "_compute_fast_alignment_job", "_compute_gamma_k_job"]
-    origs = {k: getattr(co, k) for k in jobs}
-    counter = [0]
-    lock = threading.Lock()
+    from concurrent.futures import ThreadPoolExecutor as RealTPE
     N = 5
 
-    def delayed(k):
-        def f(*a):
-            with lock:
-                idx = counter[0]
-                counter[0] += 1
-            time.sleep(max(0, (N - idx % (N + 1))) * 0.03)
-            return origs[k](*a)
-        return f
+    class ReversingExecutor(RealTPE):
+        """real threads; every submitted job - whatever function it is - first sleeps the longer the earlier it was
+        submitted, so that later-submitted jobs run (and finish) first"""
+
+        def __init__(self, max_workers=None, **kw):
+            super().__init__(max_workers=max_workers, **kw)
+            self._n = 0
+
+        def submit(self, fn, *args, **kwargs):
+            idx = self._n
+            self._n += 1
+
+            def delayed(*a, **k):
+                time.sleep(max(0, 12 - idx % 13) * 0.02)
+                return fn(*a, **k)
+            return super().submit(delayed, *args, **kwargs)
     outs = []
     d = pa.CombinedCategoricalDissimilarity()
 
-    def run(workers, delay, soft=False):
-        counter[0] = 0
+    def run(workers, delay, soft=False, prec=None):
         np.random.seed(11)
         patches = [mock.patch.object(co.os, "cpu_count", lambda: workers)]
         if delay:
-            patches += [mock.patch.object(co, k, delayed(k)) for k in jobs]
+            patches.append(mock.patch.object(co, "ThreadPoolExecutor", ReversingExecutor))
         for p_ in patches:
             p_.start()
         try:
-            r = c.compute_gamma(d, n_samples=N, soft=soft)
+            r = c.compute_gamma(d, n_samples=N, soft=soft, precision_level=prec)
             return ([round(float(a.disorder), 6) for a in r.chance_alignments], round(float(r.gamma), 6), round(float(r.gamma_cat), 6), round(float(r.gamma_k("x")), 6))
         finally:
             for p_ in patches:
                 p_.stop()
     try:
-        for soft in (False, True):
-            outs = [run(1, False, soft), run(16, True, soft), run(16, True, soft)]
+        for soft, prec in ((False, None), (True, None), (False, 0.08), (True, 0.08)):       # with a precision level a second batch is drawn
+            outs = [run(1, False, soft, prec), run(16, True, soft, prec), run(16, True, soft, prec)]
             if not (outs[0] == outs[1] == outs[2]):
-                return dict(reproduced=True, detail=f"seeded results depend on the thread schedule (soft={soft}): {outs[0]} vs {outs[1]} vs {outs[2]}"[:600])
+                return dict(reproduced=True, detail=f"seeded results depend on the thread schedule (soft={soft}, precision_level={prec}): "
+                                                    f"{outs[0]} vs {outs[1]} vs {outs[2]}"[:600])
     except Exception as ex:     # noqa: BLE001
         return dict(reproduced=True, detail="seeded gamma computation raised " + repr(ex)[:300])
     if case.get("kind") == "gamma":
